@@ -183,7 +183,11 @@ RunResult runDaemon(const Json::Value& sc, const DaemonHooks* hooks) {
   g.on_kill = [&](pid_t pid, int sig) { return sim.onKill(pid, sig); };
   g.on_pidfd_open = [&](pid_t pid) { return sim.onPidfdOpen(pid); };
   g.on_mrelease = [&](int fd) { return sim.onMrelease(fd); };
-  g.on_write = [&](const std::string& p, const std::string& d) { return sim.onWrite(p, d); };
+  g.on_write = [&](const std::string& p, const std::string& d) {
+    long r = sim.onWrite(p, d);
+    g.aux = sim.lastKillCount;
+    return r;
+  };
   g.on_access = [&](const std::string& path, const char* kind) {
     AccessDecision d;
     if (hooks && hooks->on_access) {
@@ -469,7 +473,9 @@ int harnessMain(int argc, char** argv, const HarnessDef& def) {
       auto cases = def.fixed();
       total = (long)cases.size();
       for (long idx = from; idx < total; idx++) {
-        if ((idx / stride) % sn != si || idx % stride != 0) continue;
+        // a case marked "always" is never sampled away (it still belongs to one shard)
+        bool always = cases[idx].get("always", false).asBool();
+        if (always ? (idx % sn != si) : ((idx / stride) % sn != si || idx % stride != 0)) continue;
         Json::Value c = cases[idx];
         c["_idx"] = (Json::Int64)idx;
         Verdict v = runOne(c);
